@@ -135,6 +135,9 @@ inductive RowsKind where
   | ok            -- a non-empty iterable of rows
   | empty         -- an empty iterable
   | notIterable   -- not an iterable: `iterable_to_table` raises `TypeError` when the text is joined
+  /-- the attribute `rows` is not callable (e.g. a list of rows): not "a method rows()" — the value is not
+  convertible (repaired code, notes/C10_defect_1: `callable(getattr(data, "rows", None))`) -/
+  | notCallable
   deriving DecidableEq, Repr
 
 /-- a `lena.structures.histogram` -/
@@ -275,6 +278,13 @@ def mergeBlocks {α : Type} (failed : Bool) : List Bool → List (List α) → L
   | false :: p, as, b :: bs => [b] :: mergeBlocks failed p as bs
   | _, _, _ => []
 
+/-- how many unselected values `mergeBlocks` lets through: all the `false` entries of the pattern, or — if the
+run on the selected values failed at its `n`-th block — those before the position of that block -/
+def consumedB (failed : Bool) : List Bool → Nat → Nat
+  | true :: p, n + 1 => if failed && n == 0 then 0 else consumedB failed p n
+  | false :: p, n => consumedB failed p n + 1
+  | _, _ => 0
+
 /-- the entries of `xs` at the `true` (`which = true`) or `false` positions of the pattern -/
 def pick {β : Type} (which : Bool) : List Bool → List β → List β
   | b :: p, x :: xs => if b = which then x :: pick which p xs else pick which p xs
@@ -346,6 +356,13 @@ def replaceGo (pat rep : List Char) : Nat → List Char → List Char
 /-- Python `s.replace(pat, rep)` (`pat` non-empty) -/
 def pyReplace (s pat rep : String) : String := String.ofList (replaceGo pat.toList rep.toList 0 s.toList)
 
+/-- the file name with its extension `ext` replaced by `new` (latex_to_pdf.py:144-149, pdf_to_png.py:90-94,
+after commit 7f5ee11): only a trailing extension is replaced; a name that does not end with it falls back to
+`str.replace` over the whole name -/
+def replaceExt (name ext new : String) : String :=
+  if name.endsWith ext then String.ofList (name.toList.take (name.length - ext.length)) ++ new
+  else pyReplace name ext new
+
 /-- all the ancestors `os.makedirs(p)` may have to create, `p` included -/
 def ancestors : Nat → String → List String
   | 0, _ => []
@@ -361,6 +378,7 @@ def FS.makedirs (fs : FS) (p : String) : FS :=
 context (a graph made by `HistToGraph` has no error fields: its `_update_context` does nothing), and the
 number of rows -/
 def Data.rowsInfo : Data → Option (RowsKind × Bool × Nat)
+  | .rows _ .notCallable _ => none
   | .rows _ k upd => some (k, upd, match k with
       | .ok => 2
       | _ => 0)
@@ -538,10 +556,12 @@ def writeStep (cfg : WriteCfg) (fs : FS) (v : Item) : Step FS Item :=
           let yld (o : Dict) (fs' : FS) : Step FS Item :=
             ⟨[mk v 0 (.str filepath) ⟨c.tok, setKey d1 "output" (.dict o)⟩], fs', none⟩
           if v.data.hasWrite then
-            -- `data.write(filepath)`: the writing object (a stub of the harness) creates the directory
+            -- `data.write(filepath)`: no directory is created in this branch (write.py:232-242); an object that
+            -- opens the file fails when the directory does not exist
             let curdir := dirname filepath
-            let fs0 := if curdir == "" || fs.exists curdir then fs else fs.makedirs curdir
-            yld (setKey o1 "changed" (.bool true)) (fs0.write filepath v.data.content)
+            if curdir == "" || fs.exists curdir then
+              yld (setKey o1 "changed" (.bool true)) (fs.write filepath v.data.content)
+            else ⟨[], fs, some .fileNotFoundError⟩
           else if fs.exists filepath then
             if fs.isDir filepath then ⟨[], fs, some .unmodelled⟩
             else if cfg.existingUnchanged then yld (setKey o1 "changed" changed) fs
@@ -643,7 +663,7 @@ def pngStep (cfg : PngCfg) (fs : FS) (v : Item) : Step FS Item :=
       let o1 := setKey outputc "filetype" (.str "png")
       match v.data with
       | .str pdfName =>
-        let base := pyReplace pdfName ".pdf" ""
+        let base := replaceExt pdfName ".pdf" ""
         let target := base ++ "." ++ cfg.format
         let changed := (lookup o1 "changed").getD (.bool false)
         if !fs.exists target || cfg.overwrite || changed.truthy then
@@ -803,7 +823,7 @@ def mapBinsSel (selectBins : BinKind → Bool) (v : Item) : Bool :=
 bound on the number of rounds) -/
 def mapBinsRounds {σ : Type} (dropCtx : Bool) (v : Item) (h : HistD) (d : Dict) (res : List CellRes) (s : σ) :
     Nat → Nat → List Item → Step σ Item
-  | 0, _, acc => ⟨acc.reverse, s, none⟩
+  | 0, _, acc => ⟨acc.reverse, s, some .unmodelled⟩       -- out of fuel: not reached with the bound of `mapBinsStep`
   | fuel + 1, k, acc =>
     match roundK k res with
     | .stop => ⟨acc.reverse, s, none⟩
@@ -1022,7 +1042,7 @@ def pdfDecide (overwrite : Bool) (fs : FS) (v : Item) : PdfDec :=
     let o1 := setKey outputc "filetype" (.str "pdf")
     match v.data with
     | .str texName =>
-      let pdf := pyReplace texName ".tex" ".pdf"
+      let pdf := replaceExt texName ".tex" ".pdf"
       let changedR : Except Exc Bool :=
         match lookup o1 "changed" with
         | some x => .ok x.truthy
@@ -1085,6 +1105,17 @@ def pdfRun (overwrite : Bool) (sch : Sched) (fs : FS) (xs : List Item) : PdfRun 
     ⟨r.blocks, ys, fs', none⟩
 
 def PdfRun.out (r : PdfRun) : List Emit := r.blocks.flatten ++ r.tail
+
+/-- `run` of an element object that may have been used before: the process pool and the launch counter are what
+the previous run left (`self.processes` is cleared only when a run ends normally — after an exception its
+processes are still there), the iteration count starts again; returns the state the object is left in -/
+def pdfRunFrom (overwrite : Bool) (sch : Sched) (st : PdfSt) (xs : List Item) : PdfRun × PdfSt :=
+  let r := loop (pdfStep overwrite sch) { st with iter := 0 } xs
+  match r.err with
+  | some e => (⟨r.blocks, [], r.st.fs, some e⟩, r.st)
+  | none =>
+    let (ys, fs') := pdfDrain sch r.st.fs r.st.pool
+    (⟨r.blocks, ys, fs', none⟩, { r.st with fs := fs', pool := [] })
 
 /-! ## Loops that yield more after the flow: `GroupPlots.run` (group_plots.py:330-358)
 
@@ -1236,7 +1267,7 @@ against the *initial* file system; a skipped one contributes its `(pdf, context)
 the result of its process iff the return code is 0 (`Lemmas/C10.lean`: `pdf_loop_spec`). -/
 
 /-- the pdf name of a tex name -/
-def pdfName (t : String) : String := pyReplace t ".tex" ".pdf"
+def pdfName (t : String) : String := replaceExt t ".tex" ".pdf"
 
 /-- the tex file name a value carries as data -/
 def texOf (v : Item) : Option String :=
@@ -1263,6 +1294,15 @@ def pdfSpec (ow : Bool) (rc : Nat → Int) (fs : FS) : Nat → List Item → Lis
     | .skip y => y :: pdfSpec ow rc fs n as
     | .launch key tex ctx =>
       (if rc n != 0 then [] else [procResult ⟨key, n, tex, ctx, a.tok⟩]) ++ pdfSpec ow rc fs (n + 1) as
+
+/-- the exception the run ends with, decided against one file system: that of the first selected value whose
+decision is an error -/
+def pdfSpecErr (ow : Bool) (fs : FS) : List Item → Option Exc
+  | [] => none
+  | a :: as =>
+    match pdfDecide ow fs a with
+    | .err e => some e
+    | _ => pdfSpecErr ow fs as
 
 /-- the tex names of the selected values of a flow, and the pdf names made from them -/
 def selTex (xs : List Item) : List String := (xs.filter pdfSel).filterMap texOf
@@ -1307,6 +1347,210 @@ def liftFS {ω : Type} (get : ω → FS) (set : ω → FS → ω) (f : FS → It
     Step ω Item :=
   let r := f (get w) v
   ⟨r.out, set w r.st, r.err⟩
+
+/-! ## The documented selection rules, written independently of the loop bodies
+
+`docGet` follows a dotted key through nested dictionaries as `get_recursively` is documented ("a list of keys
+is searched in the dictionary recursively; if any of them is not found, default is returned").  The `…Doc`
+predicates are the selection rules as the docstrings of the elements state them; `Props/C10.lean` proves that
+the guards transcribed from the code (`toCSVSel`, `isWritable`, …) coincide with them, and the driver evaluates
+them on every generated value against the harness's own `ref_selected`. -/
+
+def docGet : CV → List String → Option CV
+  | v, [] => some v
+  | .dict d, k :: ks => (lookup d k).bind (fun w => docGet w ks)
+  | _, _ :: _ => none
+
+/-- the context does not switch the element off at `path` (absent counts as on) -/
+def notDisabled (d : Dict) (path : List String) : Bool :=
+  match docGet (.dict d) path with
+  | some x => x.truthy
+  | none => true
+
+/-- `context` has the string `s` at `path` -/
+def hasStrAt (d : Dict) (path : List String) (s : String) : Bool :=
+  match docGet (.dict d) path with
+  | some (.str t) => t == s
+  | _ => false
+
+/-- ToCSV: "Convertible data types are histograms and those that implement a method rows() … If
+context.output.to_csv is False, the value is skipped" (histograms of more than two dimensions are not implemented) -/
+def toCSVDoc (v : Item) : Bool :=
+  notDisabled v.dict ["output", "to_csv"] &&
+  (match v.data with
+   | .hist h => h.dim == 1 || h.dim == 2
+   | .rows _ k _ => k != .notCallable
+   | .graph _ _ => true
+   | _ => false)
+
+/-- Write: "Only strings and objects with a method write are written. If context["output"]["write"] is set to
+False, a value will not be written" -/
+def writeDoc (v : Item) : Bool :=
+  (match docGet (.dict v.dict) ["output", "write"] with
+   | some (.bool false) => false
+   | _ => true) &&
+  (match v.data with
+   | .str _ => true
+   | .text _ _ _ => true
+   | .writable _ => true
+   | _ => false)
+
+/-- RenderLaTeX: "values with context.output.filetype equal to "csv" are selected by default" -/
+def renderDoc (v : Item) : Bool := hasStrAt v.dict ["output", "filetype"] "csv"
+/-- LaTeXToPDF: "A value from flow corresponds to a TeX file if its context.output.filetype is "tex"" -/
+def pdfDoc (v : Item) : Bool := hasStrAt v.dict ["output", "filetype"] "tex"
+/-- PDFToPNG: "PDF files are recognized via context.output.filetype" -/
+def pngDoc (v : Item) : Bool := hasStrAt v.dict ["output", "filetype"] "pdf"
+
+/-- HistToGraph: "Not histograms or histograms with context.histogram.to_graph set to False pass unchanged" -/
+def histToGraphDoc (v : Item) : Bool :=
+  (match v.data with
+   | .hist _ => true
+   | _ => false) && notDisabled v.dict ["histogram", "to_graph"]
+
+/-- MapGroup: "A value represents a group if its context has a key group and its data part is iterable" -/
+def mapGroupDoc (v : Item) : Bool :=
+  (docGet (.dict v.dict) ["group"]).isSome && v.data.hasIter
+
+/-! ## Stand-ins of the correspondence: the user-supplied callables the harness instantiates
+
+`lena.flow.Selector` specifications, inner sequences, `group_by` and `select_template` callables.  The theorems
+quantify over *all* functions in these places; the driver evaluates the model with the members of these small
+menus, which the harness implements as Python classes (`harness/props/c10.py`: `_make_selector`, `_Id`, `_Dup`, …). -/
+
+/-- the class name `Selector(cls)` tests with `isinstance(get_data(val), cls)` -/
+def dataCls : Data → String
+  | .int _ => "int"
+  | .str _ => "str"
+  | .text _ _ _ => "str"
+  | .other c _ _ => c
+  | .seq true _ => "tuple"
+  | .seq false _ => "list"
+  | .writable _ => "Writable"
+  | .rows _ _ _ => "Rows"
+  | .hist _ => "histogram"
+  | .graph _ _ => "graph"
+
+/-- a `Selector` argument: a class, a context key, a list (or), a tuple (and), a constant callable -/
+inductive SelSpec where
+  | cls (name : String)
+  | key (k : String)
+  | or (l : List SelSpec)
+  | and (l : List SelSpec)
+  | const (b : Bool)
+
+mutual
+/-- `Selector(spec)(val)`; `isinstance(True, int)` holds in Python -/
+def evalSel : SelSpec → Item → Bool
+  | .cls n, v => dataCls v.data == n || (n == "int" && dataCls v.data == "bool")
+  | .key k, v => hasKey v.dict k
+  | .or l, v => evalAny l v
+  | .and l, v => evalAll l v
+  | .const b, _ => b
+def evalAny : List SelSpec → Item → Bool
+  | [], _ => false
+  | s :: r, v => evalSel s v || evalAny r v
+def evalAll : List SelSpec → Item → Bool
+  | [], _ => true
+  | s :: r, v => evalSel s v && evalAll r v
+end
+
+/-- the state the inner sequences of `RunIf` / `MapGroup` may use: the file system and a counter -/
+structure World where
+  fs : FS
+  n : Nat
+
+/-- a sequence given by a loop body, as an inner sequence -/
+def asInner {σ : Type} (f : σ → Item → Step σ Item) (s : σ) (xs : List Item) : Step σ Item :=
+  let r := loop f s xs
+  ⟨r.out, r.st, r.err⟩
+
+/-- a fresh list `[a, data]` made from `v` (never a `(data, context)` pair) -/
+def numbered (v : Item) (a : Nat) : Item := ⟨.made v.tok 500, .seq false [.int a, v.data], none⟩
+
+def numberAll : Nat → List Item → List Item
+  | _, [] => []
+  | i, v :: vs => numbered v i :: numberAll (i + 1) vs
+
+/-- the inner sequences of the harness (`_Id`, `_Dup`, `_Drop`, `_Number`, `Slice(1)`, `_Count`, `_Raise`,
+`_YieldRaise`, `_DupEven`, `_Last`, `Write(…)`) -/
+inductive InnerKind where
+  | id | dup | drop | number | first | count | raise | yieldraise | dupeven | last
+  | write (cfg : WriteCfg)
+
+def innerApply : InnerKind → World → List Item → Step World Item
+  | .id, w, xs => ⟨xs, w, none⟩
+  | .dup, w, xs => ⟨xs.flatMap (fun v => [v, v]), w, none⟩
+  | .drop, w, _ => ⟨[], w, none⟩
+  | .number, w, xs => ⟨numberAll 0 xs, w, none⟩
+  | .first, w, xs => ⟨xs.take 1, w, none⟩
+  | .count, w, xs => ⟨numberAll w.n xs, { w with n := w.n + xs.length }, none⟩
+  | .raise, w, _ => ⟨[], w, some (.inner 1)⟩
+  | .yieldraise, w, xs => ⟨xs.take 1, w, some (.inner 2)⟩
+  | .dupeven, w, xs => ⟨xs.flatMap (fun v =>
+      match v.data with
+      | .int i => if i % 2 == 0 then [v, v] else [v]
+      | _ => [v]), w, none⟩
+  | .last, w, xs =>
+    match xs.getLast? with
+    | some v => ⟨[numbered v xs.length], w, none⟩
+    | none => ⟨[], w, none⟩
+  | .write cfg, w, xs =>
+    let r := asInner (writeStep cfg) w.fs xs
+    ⟨r.out, { w with fs := r.st }, r.err⟩
+
+/-- a new `(data, {"k": 1})` pair made from the cell -/
+def withCtx (v : Item) : Item := ⟨.made v.tok 500, v.data, some ⟨.made v.tok 501, [("k", .int 1)]⟩⟩
+
+/-- the sequences mapped over bins (`_Id`, `_Dup`, `_Drop`, `_DupFirst`, `_Raise`, `_YieldRaise`, `_WithCtx`) -/
+inductive CellInnerKind where
+  | id | dup | drop | dupfirst | raise | yieldraise | ctx
+
+def cellInnerApply : CellInnerKind → Item → CellRes
+  | .id, v => ([v], none)
+  | .dup, v => ([v, v], none)
+  | .drop, _ => ([], none)
+  | .dupfirst, v =>
+    match v.data with
+    | .int 0 => ([v, v], none)
+    | .hist h => if h.id % 100 == 1 then ([v, v], none) else ([v], none)
+    | .seq _ (.int 0 :: _) => ([v, v], none)
+    | _ => ([v], none)
+  | .raise, _ => ([], some (.inner 1))
+  | .yieldraise, v => ([v], some (.inner 2))
+  | .ctx, v => ([withCtx v], none)
+
+/-- `group_by` callables: parity of the data, class name of the data, `str(context["n"])`, a constant -/
+inductive KeyKind where
+  | parity | cls | ctxn | const
+
+def keyApply : KeyKind → Item → Except Exc String
+  | .parity, v =>
+    match v.data with
+    | .int i => .ok (if i % 2 == 0 then "k0" else "k1")
+    | .other "float" _ _ => .error .unmodelled
+    | .other "bool" _ _ => .error .unmodelled
+    | _ => .error .typeError
+  | .cls, v => .ok (dataCls v.data)
+  | .ctxn, v =>
+    match lookup v.dict "n" with
+    | some (.int i) => .ok (toString i)
+    | some (.str s) => .ok s
+    | some _ => .error .unmodelled
+    | none => .error .keyError
+  | .const, _ => .ok "all"
+
+/-- `select_template` callables -/
+inductive SelTemplateKind where
+  | t2 | bycls | missing | raise
+
+def selTemplateApply : SelTemplateKind → Item → Except Exc String
+  | .t2, _ => .ok "t2.tex"
+  | .bycls, v => .ok (match v.data with
+      | .int _ => "t1.tex"
+      | _ => "t2.tex")
+  | .missing, _ => .ok "missing.tex"
+  | .raise, _ => .error (.inner 1)
 
 /-! ## the elements as loops -/
 
